@@ -167,17 +167,24 @@ Definition instantiate (a : modarg) (pkg core tail : modpath) (k : nat) : option
 (* RenderContext.add_import / add_conditional_import first "repair incomplete paths": with output package
    "pyapis.business", a logical module that starts with "business." gets "pyapis." prepended.  On components:
    the package's tail (all but its first component) is a proper prefix of the module. *)
-Definition repairs (pkg m : modpath) : bool :=
+Definition repairs0 (pkg m : modpath) : bool :=
   match tl pkg with
   | [] => false
   | sfx => prefix_parts sfx m && (length sfx <? length m)%nat
   end.
-Definition repair (pkg m : modpath) : modpath :=
-  if repairs pkg m then match pkg with x :: _ => x :: m | [] => m end else m.
+(* _is_incomplete_internal_path: paths that are already complete are left alone — modules of the output package
+   itself ("dup.dup.models.x"), of the core package ("business.core.x") and of the standard library ("collections.abc") *)
+Definition repairs (stdlib : list str) (pkg core m : modpath) : bool :=
+  repairs0 pkg m
+  && negb (prefix_parts pkg m && (length pkg <? length m)%nat)
+  && negb (under core m)
+  && negb (match m with t :: _ => mem_str t stdlib | [] => false end).
+Definition repair (stdlib : list str) (pkg core m : modpath) : modpath :=
+  if repairs stdlib pkg core m then match pkg with x :: _ => x :: m | [] => m end else m.
 (* what ends up registered for an import requested through the API *)
-Definition registered (pkg : modpath) (i : imp) : imp :=
+Definition registered (stdlib : list str) (pkg core : modpath) (i : imp) : imp :=
   match i_level i with
-  | O => mkImp O (repair pkg (i_parts i))
+  | O => mkImp O (repair stdlib pkg core (i_parts i))
   | S _ => i
   end.
 
@@ -197,7 +204,7 @@ Definition static_ok (stdlib : list str) (a : modarg) : bool :=
 Definition site_allowed (stdlib : list str) (pkg core tail : modpath) (k : nat) (s : site) : bool :=
   classified (s_arg s) &&
   match instantiate (s_arg s) pkg core tail k with
-  | Some i => allowed stdlib pkg core i && allowed stdlib pkg core (registered pkg i)
+  | Some i => allowed stdlib pkg core i && allowed stdlib pkg core (registered stdlib pkg core i)
   | None => true
   end.
 
